@@ -5,6 +5,7 @@ package main
 import (
 	"go/ast"
 	"go/types"
+	"strings"
 )
 
 // lookupClosure finds the function literal bound to a local variable (in an active frame, or syntactically
@@ -113,7 +114,7 @@ func (e *Exec) havocModifies(st *State, fc *FuncContract, env *cenv, name string
 		return
 	}
 	for _, m := range fc.Modifies {
-		v, ok := e.tryResolve(st, env, m)
+		v, ok := e.resolveModifies(st, env, m)
 		if !ok || v.GT == nil {
 			e.havocHeaps(st, "call to "+name+" (modifies "+m+" not resolvable)")
 			return
@@ -132,6 +133,28 @@ func (e *Exec) havocModifies(st *State, fc *FuncContract, env *cenv, name string
 			return
 		}
 	}
+}
+
+// resolveModifies evaluates an entry of a modifies list: a variable name or a field path (cache.added).
+func (e *Exec) resolveModifies(st *State, env *cenv, m string) (v Val, ok bool) {
+	if !strings.Contains(m, ".") {
+		return e.tryResolve(st, env, m)
+	}
+	x, err := parseContractExpr(m)
+	if err != nil {
+		return Val{}, false
+	}
+	defer func() {
+		if r := recover(); r != nil {
+			if _, isUns := r.(unsupported); !isUns {
+				panic(r)
+			}
+			v, ok = Val{}, false
+		}
+	}()
+	e.inContract++
+	defer func() { e.inContract-- }()
+	return e.cev(e.specState(st), x, env), true
 }
 
 // capturedVal gives a free variable of a function literal under contract its (arbitrary) entry value.
